@@ -90,7 +90,7 @@ def run_xh(fn, timeout):
     bad = [m for m in msgs if m.state in (MessageType.POST_FAIL, MessageType.EXEC_ERR, MessageType.POST_ERR)]
     if bad:
         m = bad[0]
-        res.update(state='counterexample', detail=m.message[:2000], cex=parse_call(m.message, fn))
+        res.update(state='counterexample', detail=m.message[:2000], cex=parse_call(m.message, fn), traceback=(m.traceback or '')[-1500:])
     elif any(s in (MessageType.SYNTAX_ERR, MessageType.IMPORT_ERR) for s in states):
         res.update(state='error', detail='; '.join(m.message for m in msgs)[:2000])
     elif states and all(s == MessageType.CONFIRMED for s in states):
@@ -124,16 +124,20 @@ def main():
     mode, target, kind, arg = sys.argv[1:5]
     sl = json.loads(os.environ.get('VERIF_SLICE', '{}'))
     t0 = time.time()
+    os.environ['VERIF_ENGINE'] = kind if mode == 'run' else 'native'
     try:
         m, fn = load(target)
         if mode == 'run':
             if kind == 'xh':
                 res = run_xh(fn, float(arg))
+            elif kind == 'sx':
+                from lib import symx
+                res = symx.explore(fn, float(arg))
             else:
                 res = fn(sl, float(arg))
         else:
             cex = json.loads(arg)
-            if kind == 'xh':
+            if kind in ('xh', 'sx'):
                 res = replay_xh(fn, cex)
             else:
                 res = getattr(m, fn.__name__ + '__replay')(sl, cex)
